@@ -69,10 +69,14 @@ def as_tuple(item, type=None, length=None):
     else:
         # Convert iterable to list...
         try:
-            t = tuple(item)
+            iterator = iter(item)
         # ... or create a list of a single item
         except (TypeError, NotImplementedError):
             t = (item,) * (length or 1)
+        else:
+            # Exhaust the iterator outside of the ``try`` block, so that exceptions
+            # raised while producing the items (e.g., in a generator) are not swallowed
+            t = tuple(iterator)
     if length and not len(t) == length:
         raise ValueError(f'Tuple needs to be of length {length: d}')
     if type and not all(isinstance(i, type) for i in t):
